@@ -1,0 +1,70 @@
+//! Verification hook (cargo feature `verif-hooks`, off by default).
+//!
+//! Lets an exhaustive checker own the generator's random choices: when the
+//! environment variable `RSBDD_VERIF_RNG` holds a comma-separated list of
+//! `u32` values, they are handed out in order instead of fresh entropy, and
+//! running past the end of the list is a loud failure. When the variable is
+//! absent the wrapped generator is used unchanged.
+
+use rand::RngCore;
+
+pub const RNG_ENV: &str = "RSBDD_VERIF_RNG";
+
+pub struct ScriptedRng<R: RngCore> {
+    inner: R,
+    script: Option<std::vec::IntoIter<u32>>,
+}
+
+impl<R: RngCore> ScriptedRng<R> {
+    pub fn wrap(inner: R) -> Self {
+        let script = std::env::var(RNG_ENV).ok().map(|s| {
+            s.split(',')
+                .map(str::trim)
+                .filter(|t| !t.is_empty())
+                .map(|t| {
+                    t.parse::<u32>()
+                        .unwrap_or_else(|_| panic!("{RNG_ENV}: not a u32: {t}"))
+                })
+                .collect::<Vec<u32>>()
+                .into_iter()
+        });
+        Self { inner, script }
+    }
+}
+
+impl<R: RngCore> RngCore for ScriptedRng<R> {
+    fn next_u32(&mut self) -> u32 {
+        match &mut self.script {
+            Some(values) => values
+                .next()
+                .unwrap_or_else(|| panic!("{RNG_ENV}: script exhausted")),
+            None => self.inner.next_u32(),
+        }
+    }
+
+    fn next_u64(&mut self) -> u64 {
+        if self.script.is_some() {
+            let lo = u64::from(self.next_u32());
+            let hi = u64::from(self.next_u32());
+            (hi << 32) | lo
+        } else {
+            self.inner.next_u64()
+        }
+    }
+
+    fn fill_bytes(&mut self, dest: &mut [u8]) {
+        if self.script.is_some() {
+            for chunk in dest.chunks_mut(4) {
+                let v = self.next_u32().to_le_bytes();
+                chunk.copy_from_slice(&v[..chunk.len()]);
+            }
+        } else {
+            self.inner.fill_bytes(dest);
+        }
+    }
+
+    fn try_fill_bytes(&mut self, dest: &mut [u8]) -> Result<(), rand::Error> {
+        self.fill_bytes(dest);
+        Ok(())
+    }
+}
